@@ -260,6 +260,12 @@ def run_case(case, ctx):
         assert np.array_equal(times.astype(np.float64) * rate, samples)      # exactly representable: in the quantifier
     if rate == 1.0 and (len(labels) + h) % 2:
         times = samples.copy()              # integer times are as good as float ones when the rate is 1
+    elif rate in (2.0, 4.0) and (len(labels) + b + h) % 3 == 0 and not case.get('f32'):
+        # whole seconds given as an integer array at a rate other than 1 (times are seconds whatever their dtype): the
+        # same train stretched by the rate, so that every count stays what it was
+        samples = samples * int(rate)
+        b = b * int(rate)
+        times = (samples // int(rate)).astype([np.int64, np.int32, np.uint64][(len(labels) + k) % 3])
     lay = (len(labels) + 2 * h + b) % 4      # the caller's arrays: plain / read-only / strided views / both
     if lay >= 2 and len(times):
         bt, bc = np.zeros(2 * len(times), dtype=times.dtype), np.zeros(2 * len(times), dtype=spike_clusters.dtype)
